@@ -21,7 +21,7 @@ RULE = ("generated driver classes whose event handlers are produced from a handl
 ASSUMPTIONS = ["no order is demanded between publication and Change handlers, nor among handlers of one phase",
                "Change events for sibling switches flipped by a rule are not demanded; for BLOBs only 'changed bytes => Change'",
                "Element._value is read inside handler probes (the public .value would itself raise a Read event)"]
-REQUIRED_EVENTS = ["operations", "write_handler_calls", "change_handler_calls", "read_handler_calls", "coroutine_handler_runs",
+REQUIRED_EVENTS = ["operations", "multi_instance_cases", "write_handler_calls", "change_handler_calls", "read_handler_calls", "coroutine_handler_runs",
                    "vetoed_writes", "publications_observed"]
 
 
@@ -104,6 +104,11 @@ def gen_ops(rng, spec):
     return ops
 
 
+def assign_instances(rng, ops, n):
+    """Which driver instance (0..n-1) each operation goes to."""
+    return [rng.randrange(n) for _ in ops]
+
+
 def build_driver(spec, handlers, trace, state):
     from indi.device import events
     from indi.device.events import on
@@ -122,6 +127,7 @@ def build_driver(spec, handlers, trace, state):
                 el = event.element
                 stored = el._value
                 rec = {"seq": state.next(), "what": "handler", "hid": h["id"], "event": h["event"], "async": h["async"],
+                       "owner": self.name, "device": el.vector.device.name,
                        "element": el.name, "vector": el.vector.name, "in_op": state.in_op, "op": state.op_index,
                        "stored": blobkey(stored), "new_value": blobkey(getattr(event, "new_value", None)),
                        "old_value": blobkey(getattr(event, "old_value", None))}
@@ -174,7 +180,10 @@ def one_case(ctx, case):
     spec = make_spec(rng)
     handlers = gen_handlers(rng, spec)
     ops = gen_ops(rng, spec)
-    asyncio.run(execute(ctx, case, spec, handlers, ops))
+    ninst = 2 if rng.random() < 0.4 else 1     # several drivers of the SAME class (Driver(name=...) exists for that)
+    targets = assign_instances(rng, ops, ninst)
+    order = rng.random() < 0.5                 # which instance is constructed first
+    asyncio.run(execute(ctx, case, spec, handlers, ops, ninst, targets, order))
 
 
 async def drain():
@@ -182,22 +191,30 @@ async def drain():
         await asyncio.sleep(0)
 
 
-async def execute(ctx, case, spec, handlers, ops):
+async def execute(ctx, case, spec, handlers, ops, ninst=1, targets=None, order=True):
     from indi import message as M
     from indi.message import one_parts
     from indi.routing import Router
     trace = []
     state = State()
+    if ninst > 1:
+        spec = dict(spec, no_class_name=True)     # the name comes from the constructor: Driver(name=...)
     cls = build_driver(spec, handlers, trace, state)
     router = Router()
-    drv = cls(router=router)
+    names = ["DEV", "DEV_B"][:ninst]
+    drvs = {}
+    for nm in (names if order else list(reversed(names))):
+        drvs[nm] = cls(name=nm, router=router)
     rec = devmon.RecClient()
     router.register_client(rec)
-    router.process_message(M.EnableBLOB(device="DEV", value="Also"), sender=rec)   # the recorder wants BLOB updates too
+    for nm in names:
+        router.process_message(M.EnableBLOB(device=nm, value="Also"), sender=rec)   # the recorder wants BLOB updates too
+    if ninst > 1:
+        ctx.count("multi_instance_cases")
 
     def recv(message):
         trace.append({"seq": state.next(), "what": "publish", "op": state.op_index, "in_op": state.in_op,
-                      "kind": type(message).__name__, "name": getattr(message, "name", None),
+                      "kind": type(message).__name__, "name": getattr(message, "name", None), "device": getattr(message, "device", None),
                       "children": {c.name: c.value for c in (getattr(message, "children", None) or ())},
                       "blob": {c.name: (c.size, c.format) for c in (getattr(message, "children", None) or ()) if hasattr(c, "size")}})
     rec.message_from_device = recv
@@ -211,6 +228,8 @@ async def execute(ctx, case, spec, handlers, ops):
         how, vattr, eattr, val = op
         v = vspec[vattr]
         kind = v["kind"]
+        dname = names[(targets or [0] * len(ops))[oi] % ninst]
+        drv = drvs[dname]
         vec = D.vector_of(drv, "g", vattr)
         el = getattr(vec, eattr)
         ename = next(e["name"] for e in v["elements"] if e["attr"] == eattr)
@@ -233,7 +252,7 @@ async def execute(ctx, case, spec, handlers, ops):
                 else:
                     child = getattr(one_parts, "One" + kind)(name=ename, value=val)
                 msgcls = getattr(M, f"New{kind}Vector")
-                router.process_message(msgcls(device="DEV", name=v["name"], children=(child,)), sender=rec)
+                router.process_message(msgcls(device=dname, name=v["name"], children=(child,)), sender=rec)
             elif how == "set_value":
                 el.set_value(native)
             elif how == "assign":
@@ -253,7 +272,7 @@ async def execute(ctx, case, spec, handlers, ops):
         hs = by_target.get((vattr, eattr), [])
         nontrivial = bool(hs)
         ctx.case_fast((case["i"], oi), nontrivial=nontrivial)
-        judge(ctx, ocase, op, kind, v, vec, el, ename, old, olds, native, returned, seg, hs, end_seq, handlers)
+        judge(ctx, ocase, op, kind, v, vec, el, ename, old, olds, native, returned, seg, hs, end_seq, handlers, dname, ninst)
         if ctx.enough():
             return
     if case["i"] % 97 == 0:
@@ -266,12 +285,14 @@ def eqv(a, b):
     return blobkey(a) == blobkey(b)
 
 
-def judge(ctx, case, op, kind, v, vec, el, ename, old, olds, native, returned, seg, hs, end_seq, all_handlers):
+def judge(ctx, case, op, kind, v, vec, el, ename, old, olds, native, returned, seg, hs, end_seq, all_handlers, dname="DEV", ninst=1):
+    # With several drivers of one class every instance attaches its own bound method to the shared definition, so each
+    # subscribed handler exists `ninst` times: "exactly once" is per attached handler.
     how = op[0]
     calls = [t for t in seg if t["what"] == "handler"]
-    pubs = [t for t in seg if t["what"] == "publish" and t["name"] == v["name"] and t["kind"].startswith("Set")]
+    pubs = [t for t in seg if t["what"] == "publish" and t["name"] == v["name"] and t["kind"].startswith("Set") and t["device"] == dname]
     ctx.count("publications_observed", len(pubs))
-    mine = [t for t in calls if t["element"] == ename and t["vector"] == v["name"]]
+    mine = [t for t in calls if t["element"] == ename and t["vector"] == v["name"] and t["device"] == dname]
     enabled = bool(vec.enabled)
 
     def viol(key, what):
@@ -283,7 +304,7 @@ def judge(ctx, case, op, kind, v, vec, el, ename, old, olds, native, returned, s
         for h in reads:
             n = sum(1 for t in mine if t["hid"] == h["id"])
             ctx.count("read_handler_calls", n)
-            if n < 1:
+            if len({t["owner"] for t in mine if t["hid"] == h["id"]}) < ninst:
                 return viol(f"read-handler-not-run:{how}", f"plain Read handler {h['id']} did not run for {how}")
         fresh = [h["refresh"] for h in reads if h["refresh"]]
         if how == "read":
@@ -315,25 +336,26 @@ def judge(ctx, case, op, kind, v, vec, el, ename, old, olds, native, returned, s
             if cs:
                 return viol("write-event-on-plain-assignment", f"Write handler {h['id']} ran for a driver-side assignment")
             continue
-        if len(cs) != 1:
-            return viol(f"write-handler-count:{'coroutine' if h['async'] else 'plain'}:{len(cs)}",
-                        f"Write handler {h['id']} ran {len(cs)} times for one write")
-        t = cs[0]
-        if not eqv(t["new_value"], native):
-            return viol("write-event-wrong-value", f"Write handler saw new_value {t['new_value']!r}, requested {blobkey(native)!r}")
-        if h["async"]:
-            ctx.count("coroutine_handler_runs")
-            if t["in_op"] or t["seq"] < end_seq:
-                return viol("coroutine-write-handler-ran-inline", "coroutine Write handler ran before the synchronous part finished")
-        else:
-            if not t["in_op"]:
-                return viol("plain-write-handler-deferred", "plain Write handler ran after the operation returned")
-            if not eqv(t["stored"], old):
-                return viol("plain-write-handler-after-state-change", f"plain Write handler saw stored value {t['stored']!r}, old was {blobkey(old)!r}")
-            if any(p["seq"] < t["seq"] for p in pubs):
-                return viol("plain-write-handler-after-publication", "an update was published before a plain Write handler ran")
-            if h["veto"]:
-                veto = True
+        owners = sorted(t["owner"] for t in cs)
+        if len(cs) != ninst or len(set(owners)) != ninst:
+            return viol(f"write-handler-count:{'coroutine' if h['async'] else 'plain'}:{len(cs)}-of-{ninst}",
+                        f"Write handler {h['id']} ran {len(cs)} times (instances {owners}) for one write, {ninst} driver instance(s) attached it")
+        for t in cs:
+            if not eqv(t["new_value"], native):
+                return viol("write-event-wrong-value", f"Write handler saw new_value {t['new_value']!r}, requested {blobkey(native)!r}")
+            if h["async"]:
+                ctx.count("coroutine_handler_runs")
+                if t["in_op"] or t["seq"] < end_seq:
+                    return viol("coroutine-write-handler-ran-inline", "coroutine Write handler ran before the synchronous part finished")
+            else:
+                if not t["in_op"]:
+                    return viol("plain-write-handler-deferred", "plain Write handler ran after the operation returned")
+                if not eqv(t["stored"], old):
+                    return viol("plain-write-handler-after-state-change", f"plain Write handler saw stored value {t['stored']!r}, old was {blobkey(old)!r}")
+                if any(p["seq"] < t["seq"] for p in pubs):
+                    return viol("plain-write-handler-after-publication", "an update was published before a plain Write handler ran")
+                if h["veto"]:
+                    veto = True
     stored = el._value
     if is_write and veto:
         ctx.count("vetoed_writes")
@@ -391,8 +413,8 @@ def judge(ctx, case, op, kind, v, vec, el, ename, old, olds, native, returned, s
         ctx.count("change_handler_calls", len(cs))
         if changed is None:
             continue
-        want = 1 if changed else 0
-        if len(cs) != want:
+        want = ninst if changed else 0
+        if len(cs) != want or (want and len({t["owner"] for t in cs}) != ninst):
             return viol(f"change-handler-count:{'changed' if changed else 'unchanged'}:{len(cs)}",
                         f"Change handler {h['id']} ran {len(cs)} times, value {'changed' if changed else 'did not change'} "
                         f"({blobkey(old)!r} -> {blobkey(stored)!r})")
@@ -415,7 +437,7 @@ def judge(ctx, case, op, kind, v, vec, el, ename, old, olds, native, returned, s
                 continue
             rs = [t for t in mine if t["hid"] == h["id"] and t["event"] == "Read"]
             ctx.count("read_handler_calls", len(rs))
-            if not rs or min(t["seq"] for t in rs) > pubs[0]["seq"]:
+            if len({t["owner"] for t in rs if t["seq"] < pubs[0]["seq"]}) < ninst:
                 return viol("read-handler-not-before-publication", f"plain Read handler {h['id']} did not run before the update was published")
 
 
